@@ -405,83 +405,6 @@ def rejections(ctx, cr):
 def serde_conversion(ctx, cr):
     rule = "R-C11-serde-conversion"
     vn = [v["name"] for v in cr.adts[VAL]["variants"]]
-    # serde_yaml mapping closure: string key => exactly one insert; other key => Err
-    yk = "<rules::values::Value as std::convert::TryFrom<&serde_yaml::Value>>::try_from::{closure#1}"
-    f = cr.fns.get(yk)
-    if not f:
-        ctx.lost(rule, rule + ":yaml-map-closure", yk)
-    else:
-        outs = []
-
-        class H(ai.Hooks):
-            def call(self, a, st, term, callee, args):
-                p = M.norm_path(callee.get("path", ""))
-                k = callee.get("key", "")
-                mon = st.mon or Mon()
-                if p.endswith("IndexMap::insert"):
-                    return [(("sym", "OLD"), mon.set(inserts=mon.get("inserts", 0) + 1))]
-                if "TryFrom<&serde_yaml::Value>>::try_from" in k and "closure" not in k:
-                    return [(("enum", ai.RESULT, 0, (("sym", "CONVERTED"),)), mon.set(conv="Ok")), (("enum", ai.RESULT, 1, (("sym", "CONV_ERR"),)), mon.set(conv="Err"))]
-                return None
-
-            def constrained(self, a, st, sid, val):
-                if val[0] == "enum" and val[1] == "serde_yaml::Value" and st.mon is not None and st.mon.get("keykind") is None:
-                    names = [v["name"] for v in cr.adts["serde_yaml::Value"]["variants"]]
-                    st.mon = st.mon.set(keykind=names[val[2]])
-
-            def ret(self, a, st, v):
-                outs.append((v, st.mon or Mon()))
-        a = ai.AI(cr, H())
-        try:
-            a.run(yk, mon=Mon())
-            ctx.states += a.n_states
-            bad = []
-            n = 0
-            for v, m in outs:
-                is_ok = v[0] == "enum" and v[1] == ai.RESULT and v[2] == 0
-                kk = m.get("keykind")
-                if kk is None:
-                    continue
-                n += 1
-                if kk == "String":
-                    if m.get("conv") == "Ok" and (not is_ok or m.get("inserts", 0) != 1):
-                        bad.append("string key with a convertible value: %d inserts, Ok=%s (entry dropped or duplicated)" % (m.get("inserts", 0), is_ok))
-                    if m.get("conv") == "Err" and is_ok:
-                        bad.append("conversion error of a value swallowed")
-                    if m.get("conv") is None and is_ok:
-                        bad.append("string-keyed entry skipped without converting its value (%d inserts)" % m.get("inserts", 0))
-                else:
-                    if is_ok:
-                        bad.append("a %s key is accepted" % kk)
-            ctx.ob(rule, rule + ":yaml-mapping-entries", not bad and n >= 3, "; ".join(sorted(set(bad))[:3]) or "every string-keyed entry is inserted exactly once; other keys are errors", fn=f,
-                   sample={"loader": "serde_yaml", "paths": n})
-        except ai.Undecided as e:
-            ctx.ob(rule, rule + ":yaml-mapping-entries", False, "undecided %s" % e, fn=f)
-    # serde_yaml sequence closure: exactly one push per element
-    sk = "<rules::values::Value as std::convert::TryFrom<&serde_yaml::Value>>::try_from::{closure#0}"
-    f = cr.fns.get(sk)
-    if f:
-        outs = []
-
-        class H3(ai.Hooks):
-            def call(self, a, st, term, callee, args):
-                p = M.norm_path(callee.get("path", ""))
-                k = callee.get("key", "")
-                mon = st.mon or Mon()
-                if p == "std::vec::Vec::push":
-                    return [(("tuple", ()), mon.set(pushes=mon.get("pushes", 0) + 1))]
-                if "TryFrom<&serde_yaml::Value>>::try_from" in k and "closure" not in k:
-                    return [(("enum", ai.RESULT, 0, (("sym", "CONVERTED"),)), mon.set(conv="Ok")), (("enum", ai.RESULT, 1, (("sym", "CONV_ERR"),)), mon.set(conv="Err"))]
-                return None
-
-            def ret(self, a, st, v):
-                outs.append((v, st.mon or Mon()))
-        a = ai.AI(cr, H3())
-        a.run(sk, mon=Mon())
-        bad = [m for v, m in outs if (v[0] == "enum" and v[2] == 0) and m.get("pushes", 0) != 1]
-        ctx.ob(rule, rule + ":yaml-sequence-elements", not bad and bool(outs), "an element is pushed %s times" % [m.get("pushes", 0) for m in bad][:3] if bad else "one push per element", fn=f)
-    else:
-        ctx.lost(rule, rule + ":yaml-seq-closure", sk)
     # variant tables of both conversions
     for src, key in (("serde_yaml::Value", "<rules::values::Value as std::convert::TryFrom<&serde_yaml::Value>>::try_from"),
                      ("serde_json::Value", "<rules::values::Value as std::convert::TryFrom<&serde_json::Value>>::try_from")):
@@ -491,8 +414,13 @@ def serde_conversion(ctx, cr):
             continue
         sn = [v["name"] for v in cr.adts[src]["variants"]]
         rows = {}
+        keykinds = set()
 
         class H4(ai.Hooks):
+            def inline(self, a, st, k, fn):
+                # per-element closures (try_fold / fold) are interpreted as the loops they stand for (engine model)
+                return k.startswith(key + "::{closure")
+
             def call(self, a, st, term, callee, args):
                 p = M.norm_path(callee.get("path", ""))
                 mon = st.mon or Mon()
@@ -513,11 +441,15 @@ def serde_conversion(ctx, cr):
             def constrained(self, a, st, sid, val):
                 if sid == "arg1*" and val[0] == "enum" and val[1] == src:
                     st.mon = (st.mon or Mon()).set(src=sn[val[2]])
+                elif sid.startswith("ITEM") and val[0] == "enum" and val[1] == src and (st.mon or Mon()).get("keykind") is None and (st.mon or Mon()).get("src") in ("Mapping",):
+                    st.mon = (st.mon or Mon()).set(keykind=sn[val[2]])
 
             def ret(self, a, st, v):
                 m = st.mon or Mon()
                 if v[0] == "enum" and v[1] == ai.RESULT and v[2] == 0 and v[3][0][0] == "enum" and v[3][0][1] == VAL:
                     rows.setdefault((m.get("src"), m.get("num")), set()).add((vn[v[3][0][2]], m.get("iters", 0), m.get("pushes", 0), m.get("inserts", 0)))
+                    if m.get("src") == "Mapping" and m.get("iters", 0) >= 1:
+                        keykinds.add(m.get("keykind"))
         a = ai.AI(cr, H4(), max_states=300000)
         a.pinned = ("arg1*",)
         try:
@@ -531,6 +463,14 @@ def serde_conversion(ctx, cr):
             got = set(r[0] for r in rows.get(k2, set()))
             ctx.ob(rule, "%s:table:%s:%s%s" % (rule, src.split("::")[0], k2[0], ":" + k2[1] if k2[1] else ""), got == {exp},
                    "%s %s converts to %s, expected %s" % (src, k2, sorted(got), exp), fn=f)
+        if src == "serde_yaml::Value":
+            seq = rows.get(("Sequence", None), set())
+            mp = rows.get(("Mapping", None), set())
+            ok = bool(seq) and all(r[0] == "List" and r[2] == r[1] for r in seq)
+            ctx.ob(rule, rule + ":yaml-sequence-elements", ok, "sequence paths (variant, iterations, pushes, inserts): %s — one push per element expected" % sorted(seq), fn=f)
+            ok = bool(mp) and all(r[0] == "Map" and r[3] == r[1] for r in mp) and keykinds <= {"String", None} and "String" in keykinds
+            ctx.ob(rule, rule + ":yaml-mapping-entries", ok, "mapping paths (variant, iterations, pushes, inserts): %s; key kinds accepted on Ok paths: %s — every string-keyed entry inserted once, other keys are errors" % (
+                sorted(mp), sorted(map(str, keykinds))), fn=f, sample={"loader": "serde_yaml", "mapping_paths": sorted(map(str, mp))})
         if src == "serde_json::Value":
             # one push per array element, one insert per object entry
             arr = rows.get(("Array", None), set())
